@@ -284,10 +284,24 @@ func (h *H) checkBalances(m *Mon, univ []cipher.Address, fail func(string, ...st
 		// the pool still refers to spent outputs; neither is a disagreement with the chain
 		uncomputable := false
 		for _, a := range univ {
+			sum := new(big.Int)
 			for _, ux := range M.UnspentOf(a) {
-				if _, cls := ledger.Accrued(ux, M.HeadTime()); cls != ledger.AccrualOK {
+				acc, cls := ledger.Accrued(ux, M.HeadTime())
+				if cls != ledger.AccrualOK {
 					uncomputable = true
 				}
+				sum.Add(sum, acc)
+			}
+			// pooled receipts are added to the predicted balance
+			for _, e := range M.Pool {
+				for _, o := range e.Txn.Out {
+					if o.Address == a {
+						sum.Add(sum, ledger.BigU(o.Hours))
+					}
+				}
+			}
+			if !ledger.Fits(sum) {
+				uncomputable = true
 			}
 		}
 		switch {
